@@ -376,32 +376,40 @@ fn percentile_function(rep: &mut Report, quick: bool) {
     rep.out.merge(out);
 }
 
-/// Boundary family around the 10,000-transaction window.
-fn window_family(rep: &mut Report, total: usize, blocks: usize) {
+/// Boundary family around the 10,000-transaction window: the oldest unstable block carries
+/// `old` expensive transactions, `newer` cheap transactions follow in `blocks` newer blocks,
+/// so that exactly 10,000 - newer (if positive) of the expensive ones fall inside the window.
+fn window_family(rep: &mut Report, old: usize, newer: usize, blocks: usize) {
     let mut out = Out::default();
     let mut w = World::new(WorldCfg::regtest(1000));
     let g = w.refm.genesis;
-    // funding block: `total` outputs to A with increasing values
-    let outs: Vec<(u64, bitcoin::ScriptBuf)> = (0..total).map(|i| (100_000 + i as u64, w.book.script(A))).collect();
+    let total = old + newer;
+    let outs: Vec<(u64, bitcoin::ScriptBuf)> = (0..total).map(|_| (1_000_000u64, w.book.script(A))).collect();
     let p = w.extend(&g, vec![coinbase_tx(1, outs)], 1);
     let cbid = w.refm.get(&p).txs[0].txid;
-    let per = total.div_ceil(blocks);
-    let mut tip = p;
     let mut k = 0usize;
+    // the old block: expensive transactions (fee 500,000 each)
+    let mut txs = vec![coinbase_tx(9, vec![(1, w.book.script(B))])];
+    for _ in 0..old {
+        txs.push(spend_tx(&[(cbid, k as u32)], vec![(500_000, w.book.script(C))], (k % 2) as usize, 0x31));
+        k += 1;
+    }
+    let mut tip = w.extend(&p, txs, 1);
+    let per = newer.div_ceil(blocks.max(1));
+    let mut left = newer;
     for b in 0..blocks {
         let mut txs = vec![coinbase_tx(10 + b as u64, vec![(1, w.book.script(B))])];
-        for _ in 0..per {
-            if k >= total {
-                break;
-            }
-            // fee grows with k so that the window position matters
-            let v = 100_000 + k as u64;
-            txs.push(spend_tx(&[(cbid, k as u32)], vec![(v - (k as u64 % 5000) - 1, w.book.script(C))], (k % 2) as usize, 0x33));
+        for _ in 0..per.min(left) {
+            // cheap, slightly varying fees
+            let fee = 100 + (k as u64 % 7);
+            txs.push(spend_tx(&[(cbid, k as u32)], vec![(1_000_000 - fee, w.book.script(C))], (k % 2) as usize, 0x33));
             k += 1;
         }
+        left -= per.min(left);
         tip = w.extend(&tip, txs, 1);
     }
-    out.set_history(json!({"family": "window", "fee_transactions": total, "blocks": blocks}));
+    let _ = tip;
+    out.set_history(json!({"family": "window", "expensive_in_oldest_block": old, "cheap_in_newer_blocks": newer, "newer_blocks": blocks}));
     let chain = w.refm.best_chain(&w.anchor());
     let exp = ref_answers(&w.refm, &chain, 10_000);
     match w.fee_percentiles() {
@@ -411,12 +419,13 @@ fn window_family(rep: &mut Report, total: usize, blocks: usize) {
                 out.violation(
                     "percentile-values-window",
                     None,
-                    json!({"fee_transactions": total, "blocks": blocks, "observed_min_max": (v.first(), v.last()),
-                           "expected_min_max": exp.first().map(|e| (e.first().copied(), e.last().copied()))}),
+                    json!({"expensive_in_oldest_block": old, "cheap_in_newer_blocks": newer,
+                           "observed_p0_p50_p99_p100": (v.first(), v.get(50), v.get(99), v.last()),
+                           "expected_p0_p50_p99_p100": exp.first().map(|e| (e.first().copied(), e.get(50).copied(), e.get(99).copied(), e.last().copied()))}),
                 );
             } else {
                 out.count("window_family_answers_checked");
-                if exp.len() == 2 {
+                if newer < 10_000 && old + newer > 10_000 {
                     out.count("window_cuts_inside_a_block");
                 }
             }
@@ -455,13 +464,14 @@ pub fn run(tier: &str) -> i32 {
         );
     }
     percentile_function(&mut rep, quick);
-    let fam: Vec<(usize, usize)> = if quick {
-        vec![(10_001, 2)]
+    // (expensive transactions in the oldest block, cheap ones in newer blocks, newer blocks)
+    let fam: Vec<(usize, usize, usize)> = if quick {
+        vec![(150, 9_960, 4)]
     } else {
-        vec![(9_999, 1), (10_000, 1), (10_001, 1), (10_001, 2), (10_050, 3), (10_000, 2)]
+        vec![(150, 9_960, 4), (150, 9_850, 3), (150, 10_000, 2), (150, 9_999, 1), (3, 9_999, 2), (150, 9_849, 5), (5_000, 5_001, 1)]
     };
-    for (t, b) in &fam {
-        window_family(&mut rep, *t, *b);
+    for (a, n, b) in &fam {
+        window_family(&mut rep, *a, *n, *b);
     }
     rep.parts.push(json!({"part": "10,000-transaction window family", "runs": fam}));
     rep.rule = "histories of <= n blocks delivered through the real heartbeat (so that the eager computation runs where production runs it), each block with a fee body (segwit fee 1000, legacy fee 7 + segwit fee 250000, fee 0, none) on any live block (forks with different fees, reorgs back and forth), upgrades, and query events in lazy mode; the answer is compared with a stateful reference (computed when a new tip is first observed, kept otherwise, previous answer kept when the chain has no fee transaction); plus the percentile routine on all n in [1,400] U {9999,10000,10001} x 5 value patterns and the 10,000-transaction window family".into();
@@ -474,5 +484,6 @@ pub fn run(tier: &str) -> i32 {
     rep.floor("states_recomputed_after_upgrade_and_new_block", 50);
     rep.floor("percentile_vectors_checked", 1000);
     rep.floor("window_family_answers_checked", 1);
+    rep.floor("window_cuts_inside_a_block", 1);
     rep.finish()
 }
